@@ -78,14 +78,14 @@ def run(ctx):
     n = 2500 if ctx.tier == 'quick' else 60000
     cases, metas = [], {}
     for i in range(n):
-        kind = 'none' if i % 5 < 3 else ('failat' if i % 5 == 3 else 'cancelat')
+        kind = 'none' if i % 5 < 3 else ('failat' if i % 5 == 3 else ('cancelat' if i % 10 == 4 else 'expireat'))
         c, meta = gen_case(r, i, kind)
         cases.append(c)
         metas[lib.case_id(c)] = meta
     ctx.rule = ('random policy sets (1-4 policies over the C06 atom language) x request templates with variables in principal / resource / '
                 'whole context / nested in context records, sets and sub-records, the same variable several times, ignored parts x value '
                 'lists of length 0-3 with duplicates, unused and unbound variables; 60%% plain runs, 20%% callback failure at a random '
-                'position, 20%% context cancellation at a random position. Compared: (a) status, number of callbacks and the multiset of '
+                'position, 20%% context cancellation (half by cancel(), half by an expiring deadline) at a random position. Compared: (a) status, number of callbacks and the multiset of '
                 '(request, values, decision, reason ids) Go = model; (b) Go batch results = cedar.Authorize on every substitution (brute force '
                 'inside the harness); (c) failure/cancellation stops after exactly k+1 / k callbacks with that error. '
                 'non-trivial = at least two callbacks')
@@ -133,7 +133,7 @@ def run(ctx):
             k = int(meta['mode'][2])
             if k < meta['total'] and (status != 'callback' or ncalls != k + 1):
                 msg = 'callback failed at position %d but status=%s after %d callbacks' % (k, status, ncalls)
-        if meta['mode'][1] == 'cancelat' and status not in ('unbound', 'unused', 'invalid'):
+        if meta['mode'][1] in ('cancelat', 'expireat') and status not in ('unbound', 'unused', 'invalid'):
             k = int(meta['mode'][2])
             if status != 'cancelled' or ncalls != k:
                 msg = 'context cancelled after %d callbacks but status=%s after %d callbacks' % (k, status, ncalls)
